@@ -17,7 +17,7 @@ def unsafe(s):
 
 class P(ServeProp):
     ID = "C17"
-    THEOREMS = ["C17_refuted", "C17_late_codes_fail", "C17_early_codes_ok", "C17_percent_is_eighth", "C17_tables_shape", "C17_roundtrip_partial", "C17_parse_query_spec", "C17_percent_free_round_trip", "C17_encoder_is_characterwise", "C17_round_trip_outside_F1", "C17_F1_class", "C17_percent_free_outside_F1"]
+    THEOREMS = ["C17_refuted", "C17_late_codes_fail", "C17_early_codes_ok", "C17_percent_is_eighth", "C17_tables_shape", "C17_roundtrip_partial", "C17_parse_query_spec", "C17_percent_free_round_trip", "C17_encoder_is_characterwise", "C17_round_trip_outside_F1", "C17_F1_class", "C17_percent_free_outside_F1", "C17_fields_round_trip", "C17_fields_domain"]
     COQ_TARGETS = ["theories/Props/C17.vo", "theories/Extract.vo"]
     N_QUICK = 3000
     N_THOROUGH = 80000
@@ -97,6 +97,8 @@ class P(ServeProp):
                 c["pct:" + ("in-theorem-domain (outside C17-F1)" if inside else "in C17-F1")] += 1
                 if inside == (meta(l).get("unsafe") == "1"):
                     raise vlib.Infra("the generator's C17-F1 tag and the model's in_F1 disagree on " + l[:120])
+            elif l.startswith(("qrt", "furt")) and m and " dom=" in m:
+                c[l.split(" ")[0] + ":" + ("in-theorem-domain" if m.endswith("dom=1") else "outside")] += 1
         return dict(c)
 
     def canon(self, line, out):
